@@ -21,6 +21,7 @@ import (
 	"fmt"
 	"github.com/echovault/sugardb/internal"
 	"github.com/echovault/sugardb/internal/clock"
+	"github.com/echovault/sugardb/internal/verifhook"
 	"io"
 	"io/fs"
 	"log"
@@ -173,11 +174,13 @@ func (engine *Engine) TakeSnapshot() error {
 
 	var firstSnapshot bool // Tracks whether the snapshot being attempted is the first one
 
+	verifhook.Point("snapshot.take.begin")
 	dirname := path.Join(engine.directory, "snapshots")
 	if err := os.MkdirAll(dirname, os.ModePerm); err != nil {
 		log.Println(err)
 		return err
 	}
+	verifhook.Point("snapshot.take.mkdir.done")
 
 	// Open manifest file
 	var mf *os.File
@@ -206,6 +209,7 @@ func (engine *Engine) TakeSnapshot() error {
 		log.Println(err)
 		return err
 	}
+	verifhook.Point("snapshot.take.manifest.read")
 
 	manifest := new(Manifest)
 
@@ -241,12 +245,14 @@ func (engine *Engine) TakeSnapshot() error {
 		return err
 	}
 
+	verifhook.Point("snapshot.take.state.copied")
 	// os.Create will replace the old manifest file
 	mf, err = os.Create(path.Join(dirname, "manifest.bin"))
 	if err != nil {
 		log.Println(err)
 		return err
 	}
+	verifhook.Point("snapshot.take.manifest.created")
 
 	// Write the latest manifest data
 	manifest = &Manifest{
@@ -262,6 +268,7 @@ func (engine *Engine) TakeSnapshot() error {
 		log.Println(err)
 		return err
 	}
+	verifhook.Point("snapshot.take.manifest.written")
 	if err = mf.Sync(); err != nil {
 		log.Println(err)
 	}
@@ -269,12 +276,14 @@ func (engine *Engine) TakeSnapshot() error {
 		log.Println(err)
 		return err
 	}
+	verifhook.Point("snapshot.take.manifest.closed")
 
 	// Create snapshot directory
 	dirname = path.Join(engine.directory, "snapshots", fmt.Sprintf("%d", msec))
 	if err := os.MkdirAll(dirname, os.ModePerm); err != nil {
 		return err
 	}
+	verifhook.Point("snapshot.take.dir.created")
 
 	// Create snapshot file
 	f, err := os.OpenFile(path.Join(dirname, "state.bin"), os.O_WRONLY|os.O_CREATE, os.ModePerm)
@@ -287,20 +296,24 @@ func (engine *Engine) TakeSnapshot() error {
 			log.Println(err)
 		}
 	}()
+	verifhook.Point("snapshot.take.state.created")
 
 	// Write state to file
 	if _, err = f.Write(out); err != nil {
 		return err
 	}
+	verifhook.Point("snapshot.take.state.written")
 	if err = f.Sync(); err != nil {
 		log.Println(err)
 	}
+	verifhook.Point("snapshot.take.state.synced")
 
 	// Set the latest snapshot in unix milliseconds
 	engine.setLatestSnapshotTimeFunc(msec)
 
 	// Reset the change count
 	engine.resetChangeCount()
+	verifhook.Point("snapshot.take.end")
 
 	return nil
 }
